@@ -112,7 +112,8 @@ def scriptLabels (n : Nat) : List Label :=
     -- words of 2-8 characters that are longer than 8 bytes in UTF-8 (Cyrillic, CJK, 4-byte characters)
     ["привет", "тест", "жизнь12", "日本語", "数据结构算法", "𝜑𝜑𝜑", "ÀÉÎÕÜàéî"].map (fun s => .str (Lb.pad8 s.toList))
 
-def varNames : List (List Char) := ["a", "b", "x1", "ν", "v_2", "Δ", ""].map String.toList
+-- among the names: ones that are all digits (`$3` beside the literals `3` and `ν3`), one that is `ν` alone, the empty one
+def varNames : List (List Char) := ["a", "b", "x1", "ν", "v_2", "Δ", "", "1", "3", "05"].map String.toList
 
 structure SG where
   rng : Rng
